@@ -28,6 +28,7 @@ REGISTRY = {
     'X05': 'harness.x05',
     'X06': 'harness.x06',
     'X07': 'harness.x07',
+    'X08': 'harness.x08',
 }
 
 if __name__ == '__main__':
